@@ -10,7 +10,8 @@ Extracted statement by statement (closed set of shapes):
 Hand-modelled in coq/Model/Scratch.v and pinned by shape (tied by the correspondence run):
   scratch.parse_job_result, scratch.parse_job_error, command.get_oneshot_command (all but the
   input-staging statement, which is extracted: Overwrite | IfAbsent),
-  cli.RedunClient.oneshot_command, aws_batch.AWSBatchExecutor.gather_inflight_jobs / _submit /
+  cli.RedunClient.oneshot_command (all but the cache / stale-output block before the task call, which
+  is extracted: ClearCached | ClearAlways | ClearNever), aws_batch.AWSBatchExecutor.gather_inflight_jobs / _submit /
   _submit_array_job / _process_job_status / _submit_jobs, aws_batch.submit_task,
   job_array.JobArrayer.add_job / submit_pending_jobs
 """
@@ -26,12 +27,13 @@ from .astutil import TranslateError, body_nodoc, fail, find_assign, find_class, 
 PINNED = [
     ("redun/executors/scratch.py", None, "parse_job_result"),
     ("redun/executors/scratch.py", None, "parse_job_error"),
-    ("redun/cli.py", "RedunClient", "oneshot_command"),
     ("redun/executors/aws_batch.py", "AWSBatchExecutor", "gather_inflight_jobs"),
     ("redun/executors/aws_batch.py", "AWSBatchExecutor", "_submit"),
     ("redun/executors/aws_batch.py", "AWSBatchExecutor", "_submit_array_job"),
     ("redun/executors/aws_batch.py", "AWSBatchExecutor", "_process_job_status"),
     ("redun/executors/aws_batch.py", "AWSBatchExecutor", "_submit_jobs"),
+    ("redun/executors/aws_batch.py", "AWSBatchExecutor", "_can_override_failed"),
+    ("redun/executors/docker.py", None, "iter_job_status"),
     ("redun/executors/aws_batch.py", None, "submit_task"),
     ("redun/job_array.py", "JobArrayer", "add_job"),
     ("redun/job_array.py", "JobArrayer", "submit_pending_jobs"),
@@ -159,6 +161,48 @@ def translate(pins: dict | None = None):
             consts["SCRATCH_INPUT"], consts["SCRATCH_OUTPUT"], consts["SCRATCH_ERROR"]):
         fail("write_array_job_scratch_files and get_oneshot_command disagree on the array file names")
 
+    # ------------------------------------------------------------------ cli.py: oneshot_command
+    # the block between reading the arguments and calling the task: cache short-circuit and the
+    # removal of a previous output file (extracted: ClearCached | ClearAlways | ClearNever); the rest
+    # of the function is pinned by shape with that block blanked
+    cli = load("redun/cli.py")
+    osc = find_func(cli, "oneshot_command", "RedunClient")
+    tries = [n for n in body_nodoc(osc) if isinstance(n, ast.Try)]
+    if len(tries) != 1:
+        fail("oneshot_command: expected exactly one try block", osc)
+    tb = tries[0].body
+    calls = [i for i, n in enumerate(tb) if src(n) == "result = task.func(*task_args, **task_kwargs)"]
+    if len(calls) != 1 or calls[0] == 0:
+        fail("oneshot_command: the task call `result = task.func(*task_args, **task_kwargs)` was not found", osc)
+    hit = """
+        with output_file.open("rb") as infile:
+            result = pickle.load(infile)
+        if get_type_registry().is_valid_nested(result):
+            logger.info("Existing output found in {ofile}".format(ofile=output_path))
+            return result
+"""
+    shapes = {
+        "ClearCached": "if output_path and not args.no_cache:\n    output_file = BaseFile(output_path)\n"
+                       "    if output_file.exists():" + hit + "    output_file.remove()\n",
+        "ClearNever": "if output_path and not args.no_cache:\n    output_file = BaseFile(output_path)\n"
+                      "    if output_file.exists():" + hit,
+        "ClearAlways": "if output_path:\n    output_file = BaseFile(output_path)\n"
+                       "    if not args.no_cache and output_file.exists():" + hit + "    output_file.remove()\n",
+    }
+    block = src(tb[calls[0] - 1])
+    clear_output = None
+    for name, text in shapes.items():
+        if src(ast.parse(text).body[0]) == block:
+            clear_output = name
+    if clear_output is None:
+        fail(f"oneshot_command: unrecognised cache / stale-output block before the task call: {block!r}", tb[calls[0] - 1])
+    osc_norm = copy.deepcopy(osc)
+    [t2] = [n for n in body_nodoc(osc_norm) if isinstance(n, ast.Try)]
+    t2.body[calls[0] - 1] = ast.Pass()
+    if any("remove" in src(n) for n in t2.body) or any("remove" in src(n) for h_ in t2.handlers for n in h_.body):
+        fail("oneshot_command: unexpected remove() inside the try block", osc)
+    oneshot_pin = pin(osc_norm)
+
     # ------------------------------------------------------------------ job_array.py
     ja = load("redun/job_array.py")
     fn = find_func(ja, "get_job_array_index")
@@ -242,6 +286,7 @@ def translate(pins: dict | None = None):
         key = f"{rel.split('/')[-1][:-3]}.{(cls + '.') if cls else ''}{name}"
         got_pins[key] = pin(find_func(mod, name, cls))
     got_pins["command.get_oneshot_command"] = oneshot_command_pin
+    got_pins["cli.RedunClient.oneshot_command"] = oneshot_pin
     if pins is not None:
         for key, exp in pins.items():
             if got_pins.get(key) != exp:
@@ -266,12 +311,18 @@ def translate(pins: dict | None = None):
         v.append(f"  {k} := {cs(cfg[k])};  (* {cfg[k]!r} *)")
     v.append("  env_vars := [" + "; ".join(cs(x) for x in env_vars) + "];")
     v.append(f"  key_task := {key_task};  (* JobDescription.task_name *)")
-    v.append(f"  stage_input := {stage_input}  (* get_oneshot_command, single-job input staging *)")
+    v.append(f"  stage_input := {stage_input};  (* get_oneshot_command, single-job input staging *)")
+    v.append(f"  clear_output := {clear_output}  (* oneshot_command, removal of a previous output file *)")
     v.append("|}.")
-    v.append("(* The theorems of Props/C32.v are about [shipped]; this is the tie. *)")
-    v.append("Lemma C32_tie : gen = shipped.")
+    v.append("(* The theorems of Props/C32.v are about [shipped] (the code as it is, with the known defect of")
+    v.append("   C32_stale_output_no_cache_refuted) and [fixed] (previous output always removed); this is the tie. *)")
+    if clear_output == "ClearAlways":
+        v.append("From RV Require Import Proofs.ScratchClear.")
+        v.append("Lemma C32_tie : gen = fixed.")
+    else:
+        v.append("Lemma C32_tie : gen = shipped.")
     v.append("Proof. vm_compute. reflexivity. Qed.")
-    return "\n".join(v) + "\n", got_pins, dict(cfg, env_vars=env_vars, key_task=key_task, stage_input=stage_input)
+    return "\n".join(v) + "\n", got_pins, dict(cfg, env_vars=env_vars, key_task=key_task, stage_input=stage_input, clear_output=clear_output)
 
 
 if __name__ == "__main__":
